@@ -51,9 +51,19 @@ func vhQueue(n int) (*Queue, []*Entry, []*vhCB, []bool, *[]*Entry) {
 		q.EventRegister(es[c], EventMask(vnU16("mask")))
 		in[c] = true
 	}
-	for i := range es {
-		if stale[i] {
-			q.EventUnregister(es[i])
+	// the earlier unregistrations happened in either order: removing the later entry first
+	// leaves a stale prev link in it, removing the earlier one first a stale next link
+	if vnBool("stalerev") {
+		for i := n - 1; i >= 0; i-- {
+			if stale[i] {
+				q.EventUnregister(es[i])
+			}
+		}
+	} else {
+		for i := range es {
+			if stale[i] {
+				q.EventUnregister(es[i])
+			}
 		}
 	}
 	return q, es, cbs, in, order
